@@ -14,6 +14,27 @@ def sample_config():
     return Config(phone="491234", cc=49, pushname="x", client_static_keypair=KeyPair.generate())
 
 
+def trace_profile(fmt):
+    """the trace of YowProfile.write_config (what the noise layer calls after a handshake) on an existing profile stored in `fmt`"""
+    from lib.fstrace import Tracer
+    from yowsup.config.manager import ConfigManager
+    from yowsup.profile.profile import YowProfile
+    import uuid
+    cm = ConfigManager()
+    name = "genprofile-" + uuid.uuid4().hex
+    base = os.path.join(os.environ["XDG_CONFIG_HOME"], "yowsup")
+    final = os.path.join(base, name, "config.json" if fmt == "json" else "config.yo")
+    os.makedirs(os.path.join(base, name), exist_ok=True)
+    with open(final, "w") as f:
+        f.write(cm.config_to_str(sample_config(), cm.TYPE_JSON if fmt == "json" else cm.TYPE_KEYVAL))
+    try:
+        with Tracer(final) as tr:
+            YowProfile(name).write_config(sample_config())
+        return tr.ops
+    except Exception:
+        return None
+
+
 def trace(profile_exists):
     from lib.fstrace import Tracer
     from yowsup.config.manager import ConfigManager
@@ -49,4 +70,7 @@ def generate():
         "def saveTraceFresh : Option (List FileOp) := %s" % show(trace(False)),
         "/-- save over an existing configuration -/",
         "def saveTraceExisting : Option (List FileOp) := %s" % show(trace(True)),
+        "/-- YowProfile.write_config over an existing profile stored as JSON / as key=value (path 0 = that profile's config file) -/",
+        "def saveTraceProfileJson : Option (List FileOp) := %s" % show(trace_profile("json")),
+        "def saveTraceProfileKeyval : Option (List FileOp) := %s" % show(trace_profile("keyval")),
         "end Yow.Gen", ""])
